@@ -78,5 +78,38 @@ theorem mget_not_allRet : ¬ (handleMGet c0 [b "mget", b "k"]).AllRet Res.WFok :
   have h1 : Res.WFok (.ok (b "*1\r\n")) := h []
   exact not_wf_of_parse star1_rejected h1
 
+/-! ### the nested member listings (`wfNested`) really need depth 3 -/
+
+/-- key `z` holds the sorted set {a ↦ 1} -/
+def sZ : State := { dbs := [(0, ⟨[(b "z", ⟨.zset 0 [(b "a", .fin ⟨1, 0⟩)], none⟩)], []⟩)], mem := 100 }
+
+/-- `*1` of `*2 $a +1` -/
+def nestedReply : Bytes := b "*1\r\n*2\r\n$1\r\na\r\n+1\r\n"
+
+/-- ZRANGE … WITHSCORES answers an array of arrays -/
+theorem zrange_nested :
+    ((handleZRange c0 [b "zrange", b "z", b "0", b "5", b "withscores"]).run c0 sZ).2 = .done (.ok nestedReply) := by
+  decide
+
+/-- … which is one RESP value of depth 3 (instance of `handleZRange_wf3`) -/
+theorem nestedReply_wf3 : WF3 nestedReply :=
+  allRet_run Res.WFok3 c0 _ sZ (handleZRange_wf3 c0 _) _ zrange_nested
+
+theorem nestedReply_parses : (parseReply nestedReply).isSome = true := nestedReply_wf3.parses
+
+/-- … and not of depth 2: with two levels of fuel the inner array's elements are out of reach -/
+theorem nestedReply_not_wf : ¬ WF nestedReply := by
+  intro ⟨v, hv⟩
+  have h0 := hv 0 []
+  have e : nestedReply ++ [] = [42, 49, 13, 10, 42, 50, 13, 10, 36, 49, 13, 10, 97, 13, 10, 43, 49, 13, 10] := by decide
+  have h1 : ([49] : Bytes) ≠ b "-1" := by decide
+  have h2 : allDigits [49] = true := by decide
+  have h3 : digitsVal [49] = 1 := by decide
+  have k1 : ([50] : Bytes) ≠ b "-1" := by decide
+  have k2 : allDigits [50] = true := by decide
+  have k3 : digitsVal [50] = 2 := by decide
+  rw [e] at h0
+  simp [parseOne, splitCrlf, cleanLine, h1, h2, h3, k1, k2, k3, parseOne.elems] at h0
+
 end WFWitness
 end Sugar
